@@ -36,6 +36,9 @@ def gen_cases(tier, seed):
                       'big': rng.choice([0, 1, 1, 2]), 'advid': rng.choice([None, 'lifo', 'random']), 'fuzz': rng.random() < 0.7, 'seed': rng.randrange(1 << 30)})
     for i in range(8 if tier == 'quick' else 100):
         cases.append({'kind': 'pipe', 'steps': rng.choice([6, 20]), 'seed': rng.randrange(1 << 30)})
+    # one side sends its last object and ends at once; the other side is slow to get to its first recv
+    for i in range(1 if tier == 'quick' else 6):
+        cases.append({'kind': 'pipe', 'steps': 0, 'late_reader': ['client', 'server'][i % 2], 'late_by': [0.4, 1.2, 0.1][i % 3], 'last_objects': 1 + i % 3, 'seed': rng.randrange(1 << 30)})
     return cases
 
 
@@ -248,6 +251,19 @@ def run_pipe(case):
                 c_script.append(['send', spec])
                 s_script.append(['recv'])
                 s_expect.append(dg)
+    bound = 60
+    if case.get('late_reader'):
+        late = case['late_reader']
+        specs = [['literal', rng.choice(LITERALS)] for _ in range(case['last_objects'])]
+        send_script = [['send', sp] for sp in specs]
+        recv_script = [['sleep', case['late_by']]] + [['recv'] for _ in specs]
+        exp = [targets.digest(targets.make_payload(sp)) for sp in specs]
+        obs['pipe_objects'] += len(specs)
+        if late == 'client':
+            s_script, c_script, c_expect = send_script, recv_script, exp
+        else:
+            c_script, s_script, s_expect = send_script, recv_script, exp
+        bound = 15
     ps = mm.Process(target=targets.c18_pipe_peer, args=(path, 'server', s_script))
     pc = mm.Process(target=targets.c18_pipe_peer, args=(path, 'client', c_script))
     ps.start()
@@ -257,9 +273,28 @@ def run_pipe(case):
         return ps.result(), pc.result()
 
     try:
-        s_got, c_got = watch.run_bounded(fin, 60, 'pipe exchange')
+        s_got, c_got = watch.run_bounded(fin, bound, 'pipe exchange')
     except watch.Hang as h:
-        viol.append({'mech': 'pipe/hang', 'msg': 'scripted pipe exchange did not finish', 'stacks': h.stacks})
+        peers = {}
+        for role in ('server', 'client'):
+            try:
+                peers[role] = open(os.path.join(d, f'{role}.stacks')).read()[-3000:]
+            except OSError as e:
+                peers[role] = f'(no peer log: {e!r})'
+        mech = 'pipe/hang'
+        msg = f'scripted pipe exchange did not finish; alive: server={ps.is_alive()} client={pc.is_alive()}'
+        for sender, receiver in (('server', 'client'), ('client', 'server')):
+            rl = peers[receiver]
+            # the receiver's log is written by a 40 s faulthandler timer; with the short bound of the directed case it may not have fired yet
+            stuck_opening = '_get_reader' in rl or (case.get('late_reader') == receiver and 'recv' not in rl)
+            if 'script finished' in peers[sender] and 'script finished' not in rl and stuck_opening and not any('recv' in ln for ln in rl.splitlines() if 'done' in ln):
+                # known finding: everything the sender put into the FIFO is discarded by the kernel when the sender, the only process that has
+                # the FIFO open, goes away; the receiver then blocks in open() for ever
+                mech = 'pipe/objects-lost-when-sender-ends-before-receiver-first-recv'
+                msg = (f'the {sender} sent its last {sum(1 for st in (s_script if sender == "server" else c_script) if st[0] == "send")} object(s) and ended; the {receiver}, which had not '
+                       f'called recv before, never received them and blocks in _Pipe._get_reader (open of the FIFO for reading)')
+        viol.append({'mech': mech, 'msg': msg, 'stacks': h.stacks, 'peer_logs': peers,
+                     'scripts': {'server': [st[0] for st in s_script], 'client': [st[0] for st in c_script]}})
         for p in (ps, pc):
             try:
                 p.kill()
